@@ -56,7 +56,7 @@ def clear_cache():
     shutil.rmtree(config.DATADIR / "fiprofiles", ignore_errors=True)
 
 
-REDIRECTS = ["redirect-307", "redirect-308", "redirect-302", "redirect-301", "redirect-303", "redirect-307"]
+REDIRECTS = ["redirect-307", "redirect-308", "redirect-302", "redirect-301", "redirect-303", "redirect-307", "status-503-cookie", "status-500-cookie"]
 
 
 def gen_scenario(rng, idx, loopback_base=None):
@@ -66,14 +66,16 @@ def gen_scenario(rng, idx, loopback_base=None):
     for i in range(nclients):
         tag = "ABC"[i]
         shared = i > 0 and rng.random() < 0.5
+        # one institution in three has percent-encoded characters in its paths (a blank, a slash): the URL is used as it is given
+        pe = rng.choice(["", "", "OFX%20Server/", "a%2Fb%25/"])
         if loopback_base:
-            prof = f"{loopback_base}/{'shared' if shared else 'fi' + tag}/profile"
-            svc = prof if rng.random() < 0.4 else f"{loopback_base}/{'shared' if shared else 'fi' + tag}/service"
+            prof = f"{loopback_base}/{pe}{'shared' if shared else 'fi' + tag}/profile"
+            svc = prof if rng.random() < 0.4 else f"{loopback_base}/{pe}{'shared' if shared else 'fi' + tag}/service"
         else:
             host = clients[0]["profile_url"].split("/")[2] if shared else hosts[i]
             scheme = rng.choice(["https", "https", "http"])
-            prof = f"{scheme}://{host}/ofx/{'p' + tag if not shared or rng.random() < 0.5 else 'pA'}"
-            svc = prof if rng.random() < 0.4 else f"{scheme}://{rng.choice([host, 'stmt.' + host.split('.', 1)[1]])}/svc/{tag}"
+            prof = f"{scheme}://{host}/{pe}ofx/{'p' + tag if not shared or rng.random() < 0.5 else 'pA'}"
+            svc = prof if rng.random() < 0.4 else f"{scheme}://{rng.choice([host, 'stmt.' + host.split('.', 1)[1]])}/{pe}svc/{tag}"
         clients.append({"tag": tag, "profile_url": prof, "service_url": svc, "password": f"CANARY-{tag}-{rng.getrandbits(48):012x}",
                         # one client in four has letters outside ASCII in what it signs on with (a body whose length in bytes is not its length in characters)
                         "userid": (f"us\u00e9r\u6c49{tag}{idx}" if rng.random() < 0.25 else f"user{tag}{idx}")[:32],
@@ -130,6 +132,12 @@ class Recorder:
             self.cookie_owner[val] = tag
             headers.append(("Set-Cookie", f"SID={val}; Path=/"))
         fault = getattr(self, "fault", None)
+        if fault and fault.startswith("status-") and (b"<PROFRQ>" not in body or self.fault_on_profile):
+            # an error status that nevertheless sets a cookie (a load balancer pinning the session before the back end failed)
+            self.counter += 1
+            val = f"{tag}e{self.scen['idx'].replace('/', '_')}x{self.counter}"
+            self.cookie_owner[val] = tag
+            return Reply(b"<html>service unavailable</html>", status=int(fault.split("-")[1]), headers=[("Set-Cookie", f"SID={val}; Path=/")])
         if fault and fault.startswith("redirect-") and (b"<PROFRQ>" not in body or self.fault_on_profile):
             if "/elsewhere/" in rec["url"]:
                 return Reply(ofxserver.statement_ok())
@@ -261,6 +269,17 @@ def check_history(ctx, scen, history, rec):
             for p in posts:
                 if c["password"].encode() in (p["body"] or b"") and p["url"] not in adv:
                     ctx.violation("credentials-to-unadvertised-url", f"client {c['tag']} {tag}: profile advertises {sorted(adv)}, credentials POSTed to {p['url']}", case)
+            continue
+        if (op.get("fault") or "").startswith("status-") and op["mode"] != "dryrun":
+            # the call fails; the cookie that came with the error reply is the client's all the same and goes out with its next request
+            ctx.count("ops_answered_with_error_status_and_cookie")
+            if h["outcome"][0] != "exc":
+                ctx.violation(f"error-status-swallowed/{tag}", f"client {c['tag']} {tag}: server answered {op['fault']} but the call returned normally", case)
+            for p in posts:
+                for sc in p.get("replied", {}).get("set_cookie", []):
+                    m = re.match(r"SID=([^;]+)", sc)
+                    if m:
+                        cookies_given[(c["tag"], p["host"])] = {m.group(1)}
             continue
         if (op.get("fault") or "").startswith("redirect-") and op["mode"] != "dryrun":
             # the server answered with a redirect.  What the call then does (fail, or fetch the new place without a body) is the
